@@ -11,10 +11,10 @@ CHECKS = {
          "trusted: Coq kernel, extraction (ExtrOcamlBasic/ExtrOcamlString), OCaml driver, Rust harness, python clause oracle; usize overflow outside the model; defects F1/F1b repaired by fix: commits"),
  "C05": ("proof", "coq-lmmm", "machine-checked proof in Coq + trace/skeleton/state correspondence (hook H1)",
          "Coq: for every wf program of the Lmmm fragment and every run length, every state access of the compiled cursor machine hits exactly a cell of the published skeleton, cursor home after each dsp call, storage = layout size; compile/machine mirror mirgen.rs bookkeeping and vm.rs/wasm.rs primitives; tied to the code by skeleton/trace/cursor/words comparison",
-         "fragment: named first-order functions, let, if (stateful arms allowed since fix F2), self, mem, delay, now, dsp input, tuple outputs; bytecodegen/wasmgen, closures' private storages, tuple-valued self not modelled; known finding F3 (VM delay sizes)"),
+         "fragment: named first-order functions, let, if (stateful arms allowed since fix F2), self, mem, delay, now, dsp input, tuple outputs; bytecodegen/wasmgen, closures' private storages, tuple-valued self not modelled; defects F2 F3 F12 repaired"),
  "C02": ("proof", "coq-lmmm", "machine-checked proof in Coq (semantic preservation) + differential execution on VM and WASM",
          "C02_preservation: compiled cursor machine = reference call-by-value semantics with per-call-site state tree, all wf fragment programs, all run lengths and inputs; ring-buffer refinement; real compiler tied by bit-exact outputs on both backends",
-         "numbers restricted to integer-valued f64 (exact); lower.rs, convert_pronoun, typing, bytecodegen, wasmgen only through correspondence; closures/HOF/pipes/default args/records outside the fragment; known finding F3"),
+         "numbers restricted to integer-valued f64 (exact); lower.rs, convert_pronoun, typing, bytecodegen, wasmgen only through correspondence; closures/HOF/pipes/default args/records outside the fragment; defects F3 F13 F47 repaired"),
  "C06": ("proof", "coq-lmmm", "machine-checked proof in Coq + direct hot-swap execution on both runtimes",
          "C06_swap_identity/C06_swaps_identity over Lmmm machine + HotSwap model (plan None => clone); real VM new_resume and WASM try_hot_swap exercised at split points incl. 0 with k consecutive swaps, bit-identical to uninterrupted runs",
          "harness replicates mimium-cli's WASM payload preparation (CLI code itself not linked); defect F19 repaired"),
@@ -23,10 +23,10 @@ CHECKS = {
          "theorem needs the hypothesis that a patch carries the voice's range (provided by C08_survivors_whole for top-level insert/delete); identically shaped siblings may exchange state (allowed by the property); known findings F24 (replaced site inherits cells), F25 (WASM channel count)"),
  "C01": ("other", "coq-lmmm", "Coq theorem for the modelled state layer + differential VM-vs-WASM search",
          "PARTIAL: C01_core_agree/C01_agree_unless_fault (VM-style and WASM-style state machines agree on every wf fragment program, every run length); beyond the model a search: bitwise VM vs WASM on generated programs, all shipped sources and mutants, scheduler loaded",
-         "bytecodegen.rs / wasmgen.rs lowering not modelled; known findings F3, F17; defects F13, F15 repaired"),
+         "bytecodegen.rs / wasmgen.rs lowering not modelled; known findings F17 F46 F48 F13w; defects F3 F13 F15 F23 repaired"),
  "C03": ("other", "coq-lmmm", "Coq safety theorem for the modelled state layer + supervised crash oracle",
          "PARTIAL: C03_safety (no fault, accesses in bounds, declared output arity) for wf fragment programs on both disciplines; crash oracle (panic/abort/SIGSEGV/timeout, H1 bounds) on accepted generated programs, near-miss mutants and shipped sources",
-         "Rust unsafe memory safety, closures, heap, arrays not modelled; many compiler robustness defects recorded as known findings by panic site / construct class (F3 F26 F30 F31 F34 F36-F41)"),
+         "Rust unsafe memory safety, closures, heap, arrays not modelled; many compiler robustness defects recorded as known findings by panic site / construct class (F26 F30 F31 F37-F41 F61; F3 F4 F33 F34 F36 repaired)"),
  "C20": ("proof", "coq-fficodec", "machine-checked proof in Coq + byte-level correspondence + tables regenerated from source",
          "round-trip / refusal theorems for FfiValue, Value, Type and macro args over a byte-level model of bincode 1.3 and the hand-written serde; variant tables regenerated from the Rust source each run",
          "bincode/serde derive/slotmap/string-interner modelled not verified; keys and ids session-local; known finding F10 (ErrorV -> Unit)"),
@@ -41,7 +41,7 @@ CHECKS = {
          "chumsky combinator semantics trusted as transcribed; C13_cst_leaves not yet a Coq theorem; known finding F5"),
  "C09": ("proof", "coq-staging", "machine-checked proof in Coq + expanded-AST / output correspondence + tables regenerated from source",
          "quote/splice identity, whole-program expansion agreement, f!(a) = splice of f(a), exact lifting, combinator arity tables (regenerated from translate_staging.rs / codegen_combinators.rs) over a transcription of the staging translation and the stage-0 combinator evaluator",
-         "no Coq semantics of main-stage code (normal form vs original meaning covered by output comparison); plugin macros, stage-0 type checker outside the model; known findings F18 F19 F20"),
+         "no Coq semantics of main-stage code (normal form vs original meaning covered by output comparison); plugin macros, stage-0 type checker outside the model; known findings F27 F28; F19 (half-float immediates) repaired"),
  "C10": ("proof", "coq-staging", "machine-checked proof in Coq (refutation + restricted theorem) + renaming correspondence",
          "hygiene is REFUTED on the code (C10_hygiene_refuted, witness replayed on the real compiler) and proved under the freshness restriction (C10_hygiene_fresh, expansion commutes with renaming)",
          "alpha-equivalence of main-stage code not mechanised; known finding F7"),
@@ -50,19 +50,22 @@ CHECKS = {
          "parser layout sensitivity and type inference not modelled (search only); known findings F43 F44 F45; defect F14 repaired"),
  "C15": ("other", "coq-interner", "Coq theorems for the interner/arena model and the order-insensitive idioms + site audit regenerated from source + differential compilation",
          "PARTIAL (narrow): history independence of any symbol program (logical relation), sort-on-unique-keys and running-maximum permutation invariance, every HashMap/HashSet iteration site found by the translator is classified (finite audit regenerated from source); beyond that a differential search: same source compiled alone, after shuffled histories and in 8 fresh processes must give byte-identical Mir, bytecode, WASM, skeleton, outputs, diagnostics",
-         "that the compiler uses symbols only through intern/equality/resolve is not proved; hash containers with inferred types are invisible to the regex translator; known findings F20-F23"),
+         "that the compiler uses symbols only through intern/equality/resolve is not proved; hash containers with inferred types are invisible to the regex translator; defects F20-F23 repaired by fix: commits"),
  "C19": ("other", "coq-interner", "Coq interleaving theorem for the interner model + multi-threaded differential runs",
          "PARTIAL (narrow): for every history, thread set and schedule each thread's observations equal its solo run (atomic interner operations), split lookup/insert refuted, env-var register race exhibited; real threads (K = 2..16) compile and run distinct/identical sources and are compared with solo runs, deadlock = timeout",
          "real schedules are sampled, Mutex atomicity trusted; known finding F11 (env var); defect F24 (dangling as_str) repaired"),
  "C04": ("other", "coq-parser", "machine-checked proof in Coq for tokenizer, preparser and the complete CST parser + supervised totality oracle on all compile entry points",
          "PROVED: the scanner, preparser (Lexer theory, C04_lex_total …) and a complete model of cst_parser.rs never run out of fuel 12(n+1), never panic, every error index is inside the input and its span lies on character boundaries (given C13_tiling), CST leaves = token indices (C13_cst_leaves). NOT modelled: lowering, type checker, code generators — for these a supervised crash/hang/span oracle on exhaustive short token sequences, grammar-generated and mutated programs, all shipped sources, random Unicode",
-         "type checking and compile entry points only by oracle; stated nesting bound 200; 20 known findings F40-F59 (panics on erroneous or unusual text, identified by panic site + construct)"),
+         "type checking and compile entry points only by oracle; stated nesting bound 200; 14 known findings (panics on erroneous or unusual text, identified by panic site + construct); F40 F45 F46 F47 F51 F52 F53 repaired"),
  "C12": ("other", "coq-heap", "Coq theorems for the heap/closure model (verified monitor) + event-log replay (hook H2) + steady-state counting",
-         "PARTIAL: heap invariant (present iff allocs+retains > releases), soundness of the executable monitor `balanced` (accepted trace => no use after release, live set = positive counts), steady state for balanced net-zero periods, closure-layer operations replayed by the monitor; real VM: H2 event logs of ~450 programs replayed by the extracted monitor, closures.len()/heap.len() at N/2, N, 2N. Both sentences of the property are REFUTED on the current tree (C12_steady_state_refuted, C12_no_uaf_refuted) and recorded as findings",
-         "compiled programs are not proved to emit balanced traces (they do not); WASM heap observed through outputs only; known findings F21-F25"),
+         "PARTIAL: heap invariant (present iff allocs+retains > releases), soundness of the executable monitor `balanced` (accepted trace => no use after release, live set = positive counts), steady state for balanced net-zero periods, closure-layer operations replayed by the monitor; real VM: H2 event logs of ~450 programs replayed by the extracted monitor, closures.len()/heap.len() at N/2, N, 2N. the steady-state sentence is REFUTED on the current tree (C12_steady_state_refuted) and recorded as findings",
+         "compiled programs are not proved to emit balanced traces (they do not); WASM heap observed through outputs only; known findings F22 F23 F24 (F21 and the use-after-release F25 repaired)"),
+ "C18": ("other", "coq-rustrt", "Coq theorems for the runtime scaffold's state primitives (pinned to the template text) + three-way execution (rustc-compiled output vs VM vs reference semantics)",
+         "PARTIAL: the template's StateStorage push/pop/get/set/mem/delay (regenerated and pinned from mimium_placeholder.rs.template each run) equal the cursor machine's VM-discipline primitives on every state and every operation sequence where the machine is defined (C18_template_prims_agree), and its grow-on-demand discipline except zero-length ring buffers; so C02_preservation carries over to the state layer of generated Rust. rustgen.rs itself is NOT modelled: emitted Rust for the 134 fixtures, a function-name pool, plugin probes and two program generators (first-order three-way; closures/HOF/tuples/records/sum types/match/arrays two-way) is compiled with rustc and compared bit for bit with the real VM; clause (c): refused or failing late with the missing external named",
+         "rustgen.rs lowering, the closure/array/memory-store runtime of the template and hot swap only by comparison; known findings F22 F26 F27 F28 (F20 F21 F23 F24 repaired)"),
  "C14": ("other", "coq-fmt", "Coq theorems over all admissible layouts of the formatter's documents (fragment) + direct checking of the three facts on the real formatter",
-         "PARTIAL: for the expression/statement fragment every rendering of a document has the source's token and comment sequence, and under `safe_breaks` every rendering gives the parser the same line-break flags at every sensitive position (hence every width and indent parses alike); idempotence given the re-parse hypothesis; nine refutation theorems. Real formatter: output re-parses to the same AST, same comment sequence, fixed point — on generated programs, all shipped sources and layout mutants at 5 widths x 2 indents",
-         "`pretty`'s width algorithm not modelled; match / type declarations / modules outside the model; 12 known findings (111 of 263 shipped files are mis-formatted)"),
+         "PARTIAL: for the expression/statement fragment every rendering of a document has the source's token and comment sequence, and under `safe_breaks` every rendering gives the parser the same line-break flags at every sensitive position (hence every width and indent parses alike); idempotence given the re-parse hypothesis; nine positive examples for the repaired defect classes. Real formatter: output re-parses to the same AST, same comment sequence, fixed point — on generated programs, all shipped sources and layout mutants at 5 widths x 2 indents",
+         "`pretty`'s width algorithm not modelled; match / type declarations / modules outside the model; eleven printer defects repaired by fix: commits (all 263 valid shipped files now satisfy the three facts); known finding FM10 (parser)"),
 }
 PENDING_REASON = "check under construction in this session (see DESIGN.md section 4); not yet claimed"
 
